@@ -346,3 +346,20 @@ pub fn run(report: &mut Report, replay: Option<&Value>) {
     }
     report.extra.insert("generator".into(), json!({"generated": stats.generated, "model_invalid": stats.model_invalid}));
 }
+
+/// (rule id, document text) for every edit the model confirms as invalid by exactly that rule
+/// (used by C19's failure clause).
+pub fn invalid_documents(schema: &Schema, doc: &Document) -> Vec<(String, String)> {
+    let mut out = Vec::new();
+    for e in edits(schema, doc) {
+        let vs = validate(schema, &e.doc);
+        if vs.is_empty() || !vs.iter().all(|v| v.rule == e.rule) {
+            continue;
+        }
+        let text = render_document(&e.doc, schema, &QueryStyle { trivia: None });
+        if graphql_parser::parse_query::<String>(&text).is_ok() {
+            out.push((e.rule.id().to_string(), text));
+        }
+    }
+    out
+}
